@@ -33,6 +33,45 @@ theorem next_expired_earliest (w : Wheel) (now : Int) (e : Entry) (w' : Wheel)
 theorem nothing_due_when_none (w : Wheel) (now : Int) (h : nextExpired w now = none) :
     ∀ x ∈ w.heap, now < x.deadline := Verif.Inv.Wheel.nextExpired_none w now h
 
+/-- a poll neither duplicates nor loses an arming: what it pops together with what it leaves is the heap it found -/
+theorem poll_conserves_armings (w : Wheel) (now : Int) (fuel : Nat) :
+    ((popExpired w now fuel).1 ++ (popExpired w now fuel).2.heap).Perm w.heap :=
+  Verif.Inv.Wheel.popExpired_perm w now fuel
+
+/-- exactly once per arming, for one poll: with distinct counters in the heap (true after every history:
+    `wheel_counters_distinct`) no arming is popped twice and no popped arming is still in the heap afterwards -/
+theorem poll_fires_each_arming_once (w : Wheel) (now : Int) (fuel : Nat)
+    (huniq : w.heap.Pairwise (fun a b => a.counter ≠ b.counter)) :
+    (popExpired w now fuel).1.Pairwise (fun a b => a.counter ≠ b.counter) ∧
+    ∀ e ∈ (popExpired w now fuel).1, ∀ x ∈ (popExpired w now fuel).2.heap, e.counter ≠ x.counter := by
+  have hp := (poll_conserves_armings w now fuel).symm
+  have hsym : ∀ {a b : Entry}, a.counter ≠ b.counter → b.counter ≠ a.counter := fun h => Ne.symm h
+  have := (hp.pairwise_iff (R := fun a b : Entry => a.counter ≠ b.counter) hsym).mp huniq
+  rw [List.pairwise_append] at this
+  exact ⟨this.1, this.2.2⟩
+
+/-- "in the first dispatch that polls at or after the deadline": every arming that is due is popped by this poll … -/
+theorem poll_pops_every_due_arming (w : Wheel) (now : Int) (x : Entry) (hx : x ∈ w.heap) (hd : x.deadline ≤ now) :
+    x ∈ (popExpired w now w.heap.length).1 := by
+  have hm := (poll_conserves_armings w now w.heap.length).symm.subset hx
+  rcases List.mem_append.mp hm with h | h
+  · exact h
+  · have := (poll_pops_exactly_the_due_in_order w now).2.2 x h
+    omega
+
+/-- … and an arming that is not yet due stays armed -/
+theorem poll_keeps_every_future_arming (w : Wheel) (now : Int) (fuel : Nat) (x : Entry) (hx : x ∈ w.heap) (hd : now < x.deadline) :
+    x ∈ (popExpired w now fuel).2.heap := by
+  have hm := (poll_conserves_armings w now fuel).symm.subset hx
+  rcases List.mem_append.mp hm with h | h
+  · have := (Verif.Inv.Wheel.popExpired_spec w now fuel).1 x h
+    omega
+  · exact h
+
+/-- non-vacuity: three armings, two due (popped in deadline order), one kept -/
+example : ((popExpired { heap := [⟨30, ⟨0, 0, 0⟩, 0⟩, ⟨90, ⟨1, 0, 0⟩, 1⟩, ⟨10, ⟨2, 0, 0⟩, 2⟩], counter := 3 } 50 3).1.map (·.counter) = [2, 0]) ∧
+    ((popExpired { heap := [⟨30, ⟨0, 0, 0⟩, 0⟩, ⟨90, ⟨1, 0, 0⟩, 1⟩, ⟨10, ⟨2, 0, 0⟩, 2⟩], counter := 3 } 50 3).2.heap.map (·.counter) = [1]) := by decide
+
 /-- cancel is final: no entry of the cancelled arming remains … -/
 theorem cancel_final (w : Wheel) (c : Nat) (huniq : w.heap.Pairwise (fun a b => a.counter ≠ b.counter)) :
     ∀ x ∈ (cancel w c).heap, x.counter ≠ c := Verif.Inv.Wheel.cancel_removes w c huniq
@@ -58,6 +97,15 @@ open Verif.Loop in
 theorem wheel_counters_distinct (ops : List Op) (hab : (run ops).aborted = false) (hre : (run ops).reEnabled = false) :
     (run ops).wheel.heap.Pairwise (fun a b => a.counter ≠ b.counter) :=
   Verif.Inv.WheelInv.wheel_counters_distinct ops hab hre
+
+open Verif.Loop in
+/-- … so after every history, whenever the next poll happens, it pops each arming at most once and leaves none of
+    the popped armings in the wheel (the hypothesis of `poll_fires_each_arming_once` holds) … -/
+theorem poll_fires_once_in_every_reachable_state (ops : List Op) (hab : (run ops).aborted = false)
+    (hre : (run ops).reEnabled = false) (now : Int) (fuel : Nat) :
+    (popExpired (run ops).wheel now fuel).1.Pairwise (fun a b => a.counter ≠ b.counter) ∧
+    ∀ e ∈ (popExpired (run ops).wheel now fuel).1, ∀ x ∈ (popExpired (run ops).wheel now fuel).2.heap, e.counter ≠ x.counter :=
+  poll_fires_each_arming_once _ now fuel (wheel_counters_distinct ops hab hre)
 
 open Verif.Loop in
 /-- … so in every reachable state a cancellation is final (the hypothesis of `cancel_final` holds) … -/
